@@ -24,8 +24,31 @@ parameters = [
     ["p4", "", 4.0, [-inf, inf], "", ""],
 ]
 form_volume = "return 1.0;"
-Iq = "return sel < 0.5 ? p1 : sel < 1.5 ? p2 : sel < 2.5 ? d : p4;"
+valid = "p1 > p2 || d >= p4"
+Iq = "return sel < 0.5 ? p1 : sel < 1.5 ? p2 : sel < 2.5 ? d : sel < 3.5 ? p4 : 7.0;"
 '''
+VALID_COQ = '(App float string "||" [App float string ">" [Var float string "p1"; Var float string "p2"]; App float string ">=" [Var float string "d"; Var float string "p4"]])'
+
+
+def valid_py(env):
+    return bool(env["p1"] > env["p2"] or env["d"] >= env["p4"])
+
+
+def to_c_top(e, rng):
+    """Right-hand side as a user would write it: no parentheses around the whole expression (half of the time)."""
+    k = e[0]
+    if k == "?:" and all(x[0] in ("var", "num") for x in e[1:]):
+        return "%s > 0.0 ? %s : %s" % (to_c(e[1]), to_c(e[2]), to_c(e[3]))
+    if rng.random() < 0.5:
+        return to_c(e)
+    if k in "+-*/" and len(k) == 1:
+        return "%s %s %s" % (to_c(e[1]), k, to_c(e[2]))
+    if k == "neg":
+        return "-%s" % to_c(e[1])
+    if k == "?:":
+        return "%s > 0.0 ? %s : %s" % (to_c(e[1]), to_c(e[2]), to_c(e[3]))
+    return to_c(e)
+
 BASE_PARS = ["p1", "p2", "d", "p4"]
 
 
@@ -111,7 +134,12 @@ def gen_translation(rng):
     # intermediates must be defined before use; build in order
     for name in order:
         usable = new + defined + [p for p in BASE_PARS if p not in replaced]
-        assigns.append((name, gen_expr(rng, usable, rng.randint(1, 3))))
+        if rng.random() < 0.4:
+            # a clamp / switch written with a bare C conditional on plain names or numbers (no arithmetic operator)
+            leaf = lambda: ("var", rng.choice(usable)) if rng.random() < 0.8 else ("num", rng.choice([0.5, 2.0, 3.0]))
+            assigns.append((name, ("?:", leaf(), leaf(), leaf())))
+        else:
+            assigns.append((name, gen_expr(rng, usable, rng.randint(1, 3))))
         if name.startswith("t"):
             defined.append(name)
     return new, replaced, assigns
@@ -132,9 +160,9 @@ def main(run):
     evals, distinct = 0, set()
     cases, metas = [], []
     q = [np.array([0.1])]
-    for t in range(10 if not thorough else 70):
+    for t in range(16 if not thorough else 90):
         new, replaced, assigns = gen_translation(rng)
-        text = "\n".join("    %s = %s%s" % (n, to_c(e), "  # comment" if rng.random() < 0.2 else "") for n, e in assigns)
+        text = "\n".join("    %s = %s%s" % (n, to_c_top(e, rng), "  # comment" if rng.random() < 0.2 else "") for n, e in assigns)
         pdefs = [[n, "", 1.0, [-inf, inf], "", "new parameter " + n] for n in new]
         insert_after = None
         if rng.random() < 0.4:
@@ -165,7 +193,7 @@ def main(run):
                 run.add(Finding("C16:table-order", "derived table %s, expected %s" % (names, expect), desc))
                 continue
         kern = model.make_kernel(q)
-        for rep in range(3):
+        for rep in range(6 if any(e[0] == "?:" for _, e in assigns) else 3):
             rho = {n: rng.choice([1.0, 2.0, -1.5, 0.25, 7.0, rng.uniform(-5, 5)]) for n in new}
             for p in untouched:
                 if p != "sel":
@@ -177,6 +205,28 @@ def main(run):
             for si, p in enumerate(BASE_PARS):
                 got[p] = float(call_kernel(kern, dict(rho, sel=float(si), scale=1.0, background=0.0), cutoff=0.0)[0])
                 evals += 1
+            # validity region: the point is evaluated (the constant 7 comes back) iff the base model's validity
+            # expression holds at the translated parameters
+            seen_valid = float(call_kernel(kern, dict(rho, sel=4.0, scale=1.0, background=0.0), cutoff=0.0)[0]) == 7.0
+            want_valid = valid_py(env)
+            stats["invalid_points"] = stats.get("invalid_points", 0) + (0 if want_valid else 1)
+            if seen_valid != want_valid:
+                run.add(Finding("C16:valid", "translation\n%s\nat %s: the base parameters are %s, so the base model's region (p1 > p2 || d >= p4) %s the point, but the reparameterised model %s it" % (
+                    text, rho, {p: env[p] for p in BASE_PARS}, "contains" if want_valid else "excludes", "evaluates" if seen_valid else "skips"),
+                    dict(desc, caller=rho, translated={p: env[p] for p in BASE_PARS})))
+                continue
+            if not want_valid:
+                if any(v != 0.0 for v in got.values()):
+                    run.add(Finding("C16:valid", "an invalid point returned %s instead of the background" % got, dict(desc, caller=rho)))
+                else:
+                    distinct.add((t, rep))
+                    cases.append("(MkCase %s %s %s %s %s %s false)" % (
+                        coq_list(['"%s"' % n for n in names], "string"), coq_list(['"%s"' % n for n in ["sel"] + BASE_PARS], "string"),
+                        coq_list(['("%s", %s)' % (n, to_coq(e)) for n, e in assigns], "(string * expr float string)"),
+                        coq_list(['("%s", %s)' % (n, fhex(v)) for n, v in rho.items()], "(string * float)"),
+                        "(@nil (string * float))", VALID_COQ))
+                    metas.append(dict(desc, caller=rho, kernel=got, translated={p: env[p] for p in BASE_PARS}))
+                continue
             bad = [p for p in BASE_PARS if not (abs(got[p] - env[p]) <= 1e-12 * (abs(env[p]) + 1) or (math.isnan(got[p]) and math.isnan(env[p])) or (math.isinf(env[p]) and got[p] == env[p]))]
             d2 = dict(desc, caller=rho, kernel=got, translated={p: env[p] for p in BASE_PARS})
             if bad:
@@ -190,7 +240,7 @@ def main(run):
                     coq_list(['"%s"' % n for n in call_pars], "string"), coq_list(['"%s"' % n for n in ["sel"] + BASE_PARS], "string"),
                     coq_list(['("%s", %s)' % (n, to_coq(e)) for n, e in assigns], "(string * expr float string)"),
                     coq_list(['("%s", %s)' % (n, fhex(v)) for n, v in rho.items()], "(string * float)"),
-                    coq_list(['("%s", %s)' % (p, fhex(got[p])) for p in BASE_PARS], "(string * float)")))
+                    coq_list(['("%s", %s)' % (p, fhex(got[p])) for p in BASE_PARS], "(string * float)") + " " + VALID_COQ + " true"))
                 metas.append(d2)
         kern.release()
         run.sample(dict(translation=text.strip().split("\n"), new=new, replaced=replaced, insert_after=insert_after, table=names))
